@@ -399,7 +399,7 @@ func enumCase(i int) corr.Case {
 	return corr.Case{Tag: "exhaustive-small", Lines: lines}
 }
 
-const enumDepth = 4
+const enumDepth = 5
 
 func fixedCases() []corr.Case {
 	mk := func(tag string, ls ...string) corr.Case { return corr.Case{Tag: tag, Lines: ls} }
@@ -439,14 +439,14 @@ func spec() corr.Spec {
 		Count: func(tier string) int {
 			switch tier {
 			case "quick":
-				return 800
+				return 2000
 			case "thorough":
 				if enumCache == nil {
 					enumCache = enumScripts(enumDepth)
 				}
-				return 4*len(enumCache) + 6000
+				return 4*len(enumCache) + 16000
 			}
-			return 8000
+			return 12000
 		},
 		Shards: func(tier string) int {
 			if tier == "quick" {
@@ -499,7 +499,7 @@ func spec() corr.Spec {
 			}
 			return parked && calls >= 4
 		},
-		Rule: "scripts of lock/rlock/unlock/runlock/locks/rlocks/unlocks/runlocks by 2..6 threads over 1..4 keys on KeyLocker, KeyLockerGrp, TKeyLocker[int|string], TKeyLockerGrp[int|string] (modulo / xxhash routing, 1,2,3,73 shards; shard patterns: one shard, opposite to key order, random); each call runs in its own goroutine until it returns or parks (quiescence from goroutine states); thorough adds every script of <= 4 valid single-key calls by 3 threads over 2 keys on all four lockers; classes: order-respecting multi-key, single-key, hot key (1..2 keys, up to 6 threads), unordered (deadlocks allowed), malformed lines; every script ends with drain + entries; non-trivial = some call parked and >= 4 calls ran; distinct = distinct script text",
+		Rule: "scripts of lock/rlock/unlock/runlock/locks/rlocks/unlocks/runlocks by 2..6 threads over 1..4 keys on KeyLocker, KeyLockerGrp, TKeyLocker[int|string], TKeyLockerGrp[int|string] (modulo / xxhash routing, 1,2,3,73 shards; shard patterns: one shard, opposite to key order, random); each call runs in its own goroutine until it returns or parks (quiescence from goroutine states); thorough adds every script of <= 5 valid single-key calls by 3 threads over 2 keys on all four lockers; classes: order-respecting multi-key, single-key, hot key (1..2 keys, up to 6 threads), unordered (deadlocks allowed), malformed lines; every script ends with drain + entries; non-trivial = some call parked and >= 4 calls ran; distinct = distinct script text",
 		Assumptions: []string{
 			"sync.RWMutex / sync.Mutex behave as documented (writer preference; a blocked writer excludes later readers); pending writers are admitted in arrival order when nothing else runs (observed, not relied upon by the theorems: the model admits any pending writer)",
 			"a runnable goroutine eventually runs; a holder eventually unlocks (premise of the deadlock clause)",
